@@ -26,7 +26,8 @@ RULE = ('random histories (30-60 operations: primitive customisation, customize 
         'child_attrs_all, Array/Iterable/Array(wrapped=False), Mandatory, subclassing, new classes, append_field/insert_field, '
         'use of pool models in an Application) over a pool of models; snapshots of all pooled models after every step; '
         'non-trivial = a step that created or changed a model and was followed by a full pool comparison; distinct by '
-        '(operation, target kind, argument shape).')
+        '(operation, target kind, argument shape).'
+        ' Also: derivations that lift a constraint or pass storage attributes, unrequested attributes compared with the parent\'s, outputs through protocol instances that live as long as the history, every short history of customize() calls run with shared and with copied argument objects, pending child_attrs for fields added later, hash-seed replays in fresh processes.')
 ASSUMPTIONS = [
     'observable = public Attributes, ordered _type_info / flat type info (by type identity), validation verdicts on a probe set, the schema node rendered for the model; private bookkeeping (_variants, memo tables) is excluded',
     'a type name / namespace that is still unset (lazily resolved on first use) may be filled in by a later step; once set it must not change',
